@@ -58,6 +58,9 @@ def value_of(prog, e):
         b = e["b"]
         if b.get("expr") is not None:
             return value_of(prog, b["expr"])
+    if k == "Ret" and e.get("e") is not None:
+        # `Variant => return false,` in a match whose other arms compute something: the arm's answer is the returned value
+        return value_of(prog, e["e"])
     return None
 
 
@@ -115,9 +118,23 @@ def token_tables(prog, out):
     if x is None:
         return None
     t["la_body"], (_, table, default, has_default) = x
+    # the table may answer with the variants of a small enum of its own (`LookAhead::{Nothing, OneChar}`) whose numeric meaning is
+    # given by one match table over that enum (`fn len(self) -> usize`): composed here
+    enum_vals = {}
+    c_ = t["la_body"]["_crate"]
+    rt_ = hir.adt_path(c_, t["la_body"]["sig_out"]) if "sig_out" in t["la_body"] else None
+    if rt_ and rt_.startswith("spl_frontend::") and rt_ in prog.adts:
+        for fb in c_.bodies:
+            if fb["k"] != "assoc_fn" or "impl_self" not in fb or hir.adt_path(c_, fb["impl_self"]) != rt_:
+                continue
+            for _m, tb_, _d, _h in match_tables(prog, fb, rt_):
+                if tb_ and all(isinstance(x_, str) and x_.isdigit() for x_ in tb_.values()) and len(tb_) == len(prog.adts[rt_]["variants"]):
+                    enum_vals = {k_: v_ for k_, v_ in tb_.items()}
     la = {}
     for v in variants_of(prog, TT):
         val = table.get(v, default if has_default else None)
+        if isinstance(val, tuple) and val[0] == "variant":
+            val = enum_vals.get(val[1])
         la[v] = int(val) if isinstance(val, str) and val.isdigit() else None
     t["la"] = la
     for fn in ("is_symbol", "is_keyword"):
@@ -159,7 +176,7 @@ def lex_order(prog, out):
                     vs.add(last(r["ctor_of"]))
             if vs:
                 guarded = any(n.get("k") == "Call" and (hir.callee(n) or "").endswith("nom::combinator::peek")
-                              for n in hir.nodes_deep(prog, el, 3))
+                              for n in hir.nodes_deep(prog, el, 3, values=True))
                 res.append(("lex_keyword" if guarded else "lex_symbol", "|".join(sorted(vs)), el))
             else:
                 d = hir.path_def(el)
@@ -169,8 +186,26 @@ def lex_order(prog, out):
                     impl = c.impls.get(p.rsplit("::", 1)[0])
                     if impl:
                         name = last(c.tstr(impl["self"]))
+                    else:
+                        fb = prog.body(p) if p.startswith("spl_frontend::lexer") else None
+                        if fb is not None and fb["k"] == "fn" and p not in expanding:
+                            # a group of alternatives in a function of its own (`fn lex_any_symbol(i) { alt((..))(i) }`): its
+                            # alternatives take the place of the element, in order
+                            inner = [n for n in hir.nodes(fb["body"], "Call") if (hir.callee(n) or "").endswith("nom::branch::alt")]
+                            if inner:
+                                expanding.add(p)
+                                res.extend(flatten(inner[0]))
+                                expanding.discard(p)
+                                continue
+                            # a literal lexer written as a plain function: named after the one token class it builds
+                            built = set(last(n["res"]["ctor_of"]) for n in hir.nodes_deep(prog, fb["body"], 1, crate=c)
+                                        if n.get("k") == "Path" and (n["res"].get("ctor_of") or "").startswith(TT + "::"))
+                            if len(built) == 1:
+                                name = built.pop()
                 res.append(("lexer", name or "?", el))
         return res
+
+    expanding = set()
 
     # outermost alt = the one that is not nested in another alt's tuple: take the first in pre-order
     return body, flatten(alts[0])
@@ -341,14 +376,24 @@ def rule_tables(prog):
     tags = tag_parsers(prog)
     levels = {}
     for b in prog.front.bodies:
-        if b["name"] in ("parse_comparison", "parse_add", "parse_mul") and "::parse::" in b["p"]:
+        if b["name"] in ("parse_comparison", "parse_add", "parse_mul") and b["p"].startswith("spl_frontend::parser") and b["k"] == "fn":
             toks = set()
-            for n in hir.nodes(b["body"], "Call"):
-                if (hir.callee(n) or "").endswith("nom::branch::alt"):
-                    for el in hir.strip(n["args"][0]).get("es", []):
-                        d = hir.path_def(el)
-                        if d and d["p"] in tags:
-                            toks.add(tags[d["p"]])
+            # the operator alternatives of the level: in the function, or in an operator parser it names (handed to a shared
+            # level helper as a function value)
+            roots = [b["body"]]
+            for pth in hir.nodes(b["body"], "Path"):
+                r_ = pth["res"]
+                rp_ = (r_.get("rp") or r_.get("p") or "") if r_.get("k") == "Def" else ""
+                ob = prog.body(rp_) if rp_.startswith("spl_frontend::parser") and r_.get("dk") in ("Fn", "AssocFn") else None
+                if ob is not None and not ob["name"].startswith("parse_") and ob is not b and rp_ not in tags:
+                    roots.append(ob["body"])
+            for root in roots:
+                for n in hir.nodes(root, "Call"):
+                    if (hir.callee(n) or "").endswith("nom::branch::alt"):
+                        for el in hir.strip(n["args"][0]).get("es", []):
+                            d = hir.path_def(el)
+                            if d and d["p"] in tags:
+                                toks.add(tags[d["p"]])
             levels[b["name"]] = (toks, b)
     if set(levels) != {"parse_comparison", "parse_add", "parse_mul"}:
         out.missing("parse_comparison/parse_add/parse_mul")
